@@ -2,6 +2,8 @@
 
 package sim
 
+import "time"
+
 // RaceBuild reports whether the binary was built with the race detector.
 const RaceBuild = false
 
@@ -9,3 +11,5 @@ var ioSync uint64
 
 func raceAcquire(p *uint64)      {}
 func raceReleaseMerge(p *uint64) {}
+
+func quietTimer(d time.Duration) *time.Timer { return time.NewTimer(d) }
